@@ -35,12 +35,25 @@ use fuel_core_types::{
 };
 use std::sync::Arc;
 
-pub const N_OWNERS: usize = 3;
+pub const N_OWNERS: usize = 4;
 pub const N_CREATABLE_CONTRACTS: usize = 3;
 pub const N_GENESIS_CONTRACTS: usize = 2;
 pub const N_BLOBS: usize = 4;
 
+/// `RET $one`: the predicate of every predicate input
+pub fn predicate_code() -> Vec<u8> {
+    fuel_core_types::fuel_asm::op::ret(1).to_bytes().to_vec()
+}
+
+pub fn predicate_owner() -> Address {
+    Input::predicate_owner(predicate_code())
+}
+
+/// owner alphabet; the last one is the owner of the predicate
 pub fn owner(i: usize) -> Address {
+    if i + 1 == N_OWNERS {
+        return predicate_owner();
+    }
     let mut b = [0u8; 32];
     b[0] = 0x11;
     b[1] = i as u8;
@@ -92,6 +105,8 @@ pub fn test_tx_id(n: u32) -> TxId {
 pub struct CoinIn {
     pub utxo: UtxoId,
     pub f: CoinFields,
+    /// build as `CoinPredicate` (only effective when the owner is the predicate owner)
+    pub predicate: bool,
 }
 
 #[derive(Clone, Debug)]
@@ -100,6 +115,10 @@ pub struct MsgIn {
     pub sender: Address,
     pub recipient: Address,
     pub amount: u64,
+    /// non-empty => `MessageData*` input, empty => `MessageCoin*`
+    pub data: Vec<u8>,
+    /// build as predicate variant (only effective when the recipient is the predicate owner)
+    pub predicate: bool,
 }
 
 #[derive(Clone, Debug, PartialEq, Eq)]
@@ -134,6 +153,9 @@ pub struct TxSpec {
     pub change_to: Option<Address>,
     pub variable: bool,
     pub expiration: Option<u32>,
+    /// seed of the permutation applied to the input list and to the output list
+    /// (so that no role is tied to a position)
+    pub shuffle: u64,
 }
 
 pub struct TxFactory {
@@ -152,26 +174,80 @@ impl TxFactory {
         TxFactory { cp_test, cp_real }
     }
 
+    fn permute<T>(v: &mut [T], seed: u64) {
+        // Fisher-Yates with a splitmix stream
+        let mut x = seed ^ 0x9E37_79B9_7F4A_7C15;
+        for i in (1..v.len()).rev() {
+            x = x.wrapping_add(0x9E37_79B9_7F4A_7C15);
+            let mut z = x;
+            z = (z ^ (z >> 30)).wrapping_mul(0xBF58_476D_1CE4_E5B9);
+            z = (z ^ (z >> 27)).wrapping_mul(0x94D0_49BB_1331_11EB);
+            z ^= z >> 31;
+            v.swap(i, (z % (i as u64 + 1)) as usize);
+        }
+    }
+
+    /// inputs in their final order
     fn inputs(spec: &TxSpec) -> Vec<Input> {
+        let p_owner = predicate_owner();
         let mut v = Vec::new();
         for c in &spec.coins {
-            v.push(Input::coin_signed(
-                c.utxo,
-                c.f.owner,
-                c.f.amount,
-                c.f.asset,
-                Default::default(),
-                0,
-            ));
+            if c.predicate && c.f.owner == p_owner {
+                v.push(Input::coin_predicate(
+                    c.utxo,
+                    c.f.owner,
+                    c.f.amount,
+                    c.f.asset,
+                    Default::default(),
+                    0,
+                    predicate_code(),
+                    vec![],
+                ));
+            } else {
+                v.push(Input::coin_signed(
+                    c.utxo,
+                    c.f.owner,
+                    c.f.amount,
+                    c.f.asset,
+                    Default::default(),
+                    0,
+                ));
+            }
         }
         for m in &spec.msgs {
-            v.push(Input::message_coin_signed(
-                m.sender,
-                m.recipient,
-                m.amount,
-                m.nonce,
-                0,
-            ));
+            let pred = m.predicate && m.recipient == p_owner;
+            v.push(match (m.data.is_empty(), pred) {
+                (true, false) => {
+                    Input::message_coin_signed(m.sender, m.recipient, m.amount, m.nonce, 0)
+                }
+                (true, true) => Input::message_coin_predicate(
+                    m.sender,
+                    m.recipient,
+                    m.amount,
+                    m.nonce,
+                    0,
+                    predicate_code(),
+                    vec![],
+                ),
+                (false, false) => Input::message_data_signed(
+                    m.sender,
+                    m.recipient,
+                    m.amount,
+                    m.nonce,
+                    0,
+                    m.data.clone(),
+                ),
+                (false, true) => Input::message_data_predicate(
+                    m.sender,
+                    m.recipient,
+                    m.amount,
+                    m.nonce,
+                    0,
+                    m.data.clone(),
+                    predicate_code(),
+                    vec![],
+                ),
+            });
         }
         for (i, c) in spec.contracts.iter().enumerate() {
             let mut u = [0u8; 32];
@@ -185,10 +261,13 @@ impl TxFactory {
                 *c,
             ));
         }
+        Self::permute(&mut v, spec.shuffle);
         v
     }
 
-    fn outputs(spec: &TxSpec) -> Vec<Output> {
+    /// outputs in their final order (the `ContractCreated` output of a Create is
+    /// added by the caller, first or last)
+    fn outputs(spec: &TxSpec, inputs: &[Input]) -> Vec<Output> {
         let mut v = Vec::new();
         for o in &spec.coin_outputs {
             v.push(Output::coin(o.owner, o.amount, o.asset));
@@ -199,14 +278,16 @@ impl TxFactory {
         if spec.variable {
             v.push(Output::variable(Address::default(), 0, AssetId::default()));
         }
-        let first_contract_input = spec.coins.len() + spec.msgs.len();
-        for i in 0..spec.contracts.len() {
-            v.push(Output::contract(
-                (first_contract_input + i) as u16,
-                Default::default(),
-                Default::default(),
-            ));
+        for (i, input) in inputs.iter().enumerate() {
+            if input.is_contract() {
+                v.push(Output::contract(
+                    i as u16,
+                    Default::default(),
+                    Default::default(),
+                ));
+            }
         }
+        Self::permute(&mut v, spec.shuffle.rotate_left(17));
         v
     }
 
@@ -232,7 +313,7 @@ impl TxFactory {
                 }
             };
         let inputs = Self::inputs(spec);
-        let outputs = Self::outputs(spec);
+        let outputs = Self::outputs(spec, &inputs);
         let height = BlockHeight::new(0);
         let exp = spec.expiration.map(BlockHeight::new);
         let e = |e: fuel_core_types::fuel_vm::checked_transaction::CheckError| {
@@ -267,10 +348,16 @@ impl TxFactory {
                 for i in inputs {
                     b.add_input(i);
                 }
+                let created_first = spec.shuffle & 1 == 1;
+                if created_first {
+                    b.add_contract_created();
+                }
                 for o in outputs {
                     b.add_output(o);
                 }
-                b.add_contract_created();
+                if !created_first {
+                    b.add_contract_created();
+                }
                 if let Some(x) = exp {
                     b.expiration(x);
                 }
